@@ -301,7 +301,13 @@ func buildCases(es []EnumEntry, quick bool) []*Case {
 			if quick {
 				continue
 			}
-			add(e, "live", false)
+			// byte-level families: one mode per type, the one in which the type's fields are consumed
+			switch e.Type {
+			case "NewRoundStepMessage", "CommitStepMessage", "ProposalPOLMessage":
+				add(e, "ahead", false)
+			default:
+				add(e, "live", false)
+			}
 		}
 	}
 	if !quick {
@@ -768,21 +774,21 @@ func Run(run *core.Run) core.Coverage {
 		"outcomes":                  hist,
 		"cases_by_message_type":     byType,
 		"distinct_peer_state_views": prsShapes.Len(),
-		"cases_where_node_gossiped_votes_or_parts_to_attacker": gossipEvidence,
-		"violation_candidate_classes":                          candList,
-		"cases_with_a_visible_reaction":                        sortedKeys(reactions.Map(), 400),
-		"candidate_classes_confirmed_5_of_5":                   reported,
-		"confirmation_runs":                                    confirmRuns,
-		"inconclusive_after_rerun":                             stillInconclusive,
-		"handshake_observations_outside_the_quantifier":        handshake,
+		"cases_where_node_gossiped_votes_or_parts_to_attacker":               gossipEvidence,
+		"violation_candidate_classes":                                        candList,
+		"cases_with_a_visible_reaction":                                      sortedKeys(reactions.Map(), 400),
+		"candidate_classes_confirmed_5_of_5":                                 reported,
+		"confirmation_runs":                                                  confirmRuns,
+		"inconclusive_after_rerun":                                           stillInconclusive,
+		"handshake_observations_outside_the_quantifier":                      handshake,
 		"cases_redone_because_the_script_arrived_after_the_addressed_height": retriedLate,
-		"cases_still_late_after_4_attempts":                    lateCases,
-		"cases_cut_by_deadline":                                cut,
-		"batches_rerun_case_by_case_after_a_death":             batchDeaths,
-		"exhaustive":                                           cut == 0 && stillInconclusive == 0,
-		"scenario_space_exhaustive_schedule_not_controlled":    true,
-		"sweep_wall_s":                                         float64(int(mainWall*10)) / 10,
-		"samples":                                              samples.List(),
+		"cases_still_late_after_4_attempts":                                  lateCases,
+		"cases_cut_by_deadline":                                              cut,
+		"batches_rerun_case_by_case_after_a_death":                           batchDeaths,
+		"exhaustive": cut == 0 && stillInconclusive == 0,
+		"scenario_space_exhaustive_schedule_not_controlled": true,
+		"sweep_wall_s": float64(int(mainWall*10)) / 10,
+		"samples":      samples.List(),
 	}
 }
 
